@@ -75,7 +75,7 @@ class FormulaEnginePool:
         Returns:
             A FormulaReceiver that streams values with the formulas applied.
         """
-        channel_key = formula + component_metric_id.value
+        channel_key = f"{formula}{component_metric_id.value}-{nones_are_zeros}"
         if channel_key in self._string_engines:
             return self._string_engines[channel_key]
 
